@@ -1754,4 +1754,89 @@ theorem receiveAll_cut_inside (ms : List Rfc6455.Msg) (m : Rfc6455.Msg) (t1 : Li
   · simp only [List.reverse_cons, List.reverse_append, List.reverse_reverse, List.reverse_nil, List.nil_append,
       List.append_nil, List.reverse_replicate, List.filter_append, filter_replicate_nil, hx1]
 
+/-! ## handshake header lines -/
+
+theorem dropWhile_all_append {α} (p : α → Bool) (a b : List α) (h : ∀ x ∈ a, p x = true) :
+    (a ++ b).dropWhile p = b.dropWhile p := by
+  induction a with
+  | nil => rfl
+  | cons x t ih =>
+    have hx := h x (List.mem_cons_self ..)
+    simp only [List.cons_append, List.dropWhile_cons, hx, if_true]
+    exact ih (fun y hy => h y (List.mem_cons_of_mem _ hy))
+
+theorem dropWhile_head_false {α} (p : α → Bool) (l : List α) (h : ∀ x, l.head? = some x → p x = false) :
+    l.dropWhile p = l := by
+  cases l with
+  | nil => rfl
+  | cons x t => simp [List.dropWhile_cons, h x rfl]
+
+theorem takeWhile_all_append {α} (p : α → Bool) (a b : List α) (h : ∀ x ∈ a, p x = true) :
+    (a ++ b).takeWhile p = a ++ b.takeWhile p := by
+  induction a with
+  | nil => rfl
+  | cons x t ih =>
+    have hx := h x (List.mem_cons_self ..)
+    simp only [List.cons_append, List.takeWhile_cons, hx, if_true]
+    rw [ih (fun y hy => h y (List.mem_cons_of_mem _ hy))]
+
+/-- trimming removes exactly the blanks around a text that neither starts nor ends with one -/
+theorem trimB_pad (a v b : List UInt8) (ha : ∀ x ∈ a, isSp x = true) (hb : ∀ x ∈ b, isSp x = true)
+    (hv1 : ∀ x, v.head? = some x → isSp x = false) (hv2 : ∀ x, v.getLast? = some x → isSp x = false) :
+    trimB (a ++ v ++ b) = v := by
+  unfold trimB
+  rw [List.append_assoc, dropWhile_all_append _ _ _ ha]
+  by_cases hve : v = []
+  · subst hve
+    simp only [List.nil_append]
+    have : b.dropWhile isSp = [] := by
+      have := dropWhile_all_append isSp b [] hb
+      simpa using this
+    rw [this]; rfl
+  · have h1 : (v ++ b).dropWhile isSp = v ++ b := by
+      apply dropWhile_head_false
+      intro x hx
+      cases v with
+      | nil => exact absurd rfl hve
+      | cons y t => exact hv1 x (by simpa using hx)
+    rw [h1, List.reverse_append, dropWhile_all_append _ _ _ (fun x hx => hb x (List.mem_reverse.mp hx))]
+    rw [dropWhile_head_false _ v.reverse (fun x hx => hv2 x (by simpa [List.head?_reverse] using hx))]
+    simp
+
+/-- **The header value is the field value of RFC 7230 §3.2** (`field-name ":" OWS field-value OWS`), however
+    many blanks surround it — none included (the defect repaired in c7d7110 dropped the first byte then) -/
+theorem headerField_ows (name ows1 v ows2 : List UInt8)
+    (hn : ∀ x ∈ name, x ≠ 58 ∧ isSp x = false)
+    (h1 : ∀ x ∈ ows1, isSp x = true) (h2 : ∀ x ∈ ows2, isSp x = true) (hv : v ≠ [])
+    (hv1 : ∀ x, v.head? = some x → isSp x = false) (hv2 : ∀ x, v.getLast? = some x → isSp x = false) :
+    headerField (name ++ [58] ++ ows1 ++ v ++ ows2) = some (capName true name, v) := by
+  unfold headerField
+  have hl : trimB (name ++ [58] ++ ows1 ++ v ++ ows2) = name ++ [58] ++ ows1 ++ v := by
+    have := trimB_pad [] (name ++ [58] ++ ows1 ++ v) ows2 (by simp) h2
+      (by intro x hx
+          cases name with
+          | nil => simp at hx; subst hx; decide
+          | cons y t => simp at hx; subst hx; exact (hn _ (List.mem_cons_self ..)).2)
+      (by intro x hx
+          rw [List.getLast?_append] at hx
+          cases hg : v.getLast? with
+          | none => exact absurd (List.getLast?_eq_none_iff.mp hg) hv
+          | some y => rw [hg] at hx; simp at hx; subst hx; exact hv2 y hg)
+    simpa using this
+  simp only [hl]
+  have htw : (name ++ [58] ++ ows1 ++ v).takeWhile (· != 58) = name := by
+    rw [List.append_assoc, List.append_assoc, takeWhile_all_append _ _ _ (fun x hx => by simpa using (hn x hx).1)]
+    simp
+  rw [htw]
+  have hne : name.length ≠ (name ++ [58] ++ ows1 ++ v).length := by simp
+  rw [if_neg hne]
+  have hd : (name ++ [58] ++ ows1 ++ v).drop (name.length + 1) = ows1 ++ v := by
+    have : name ++ [58] ++ ows1 ++ v = (name ++ [58]) ++ (ows1 ++ v) := by simp
+    rw [this]
+    exact List.drop_left' (by simp)
+  rw [hd]
+  have := trimB_pad ows1 v [] h1 (by simp) hv1 hv2
+  simp only [List.append_nil] at this
+  rw [this]
+
 end AslProofs.WebSocket
